@@ -161,9 +161,14 @@ func (w *fpWalker) walk(v reflect.Value, depth int) {
 	}
 }
 
+// fpExclude lists variables left out of the state key because their content
+// was found to differ between identical replays (set by the explorer).
+var fpExclude = map[string]bool{}
+
 // fingerprint returns digests of (a) all package-level state and (b) the same
-// without the lazily built tables and their guards (maps and sync.Once).
-func fingerprint() (full, rest string) {
+// without the lazily built tables and their guards (maps and sync.Once), plus
+// one digest per variable.
+func fingerprint() (full, rest string, per map[string]string) {
 	vars := bip39.VerifStateVars()
 	names := make([]string, 0, len(vars))
 	for n := range vars {
@@ -171,19 +176,25 @@ func fingerprint() (full, rest string) {
 	}
 	sort.Strings(names)
 	hf, hr := sha256.New(), sha256.New()
+	per = map[string]string{}
 	for _, n := range names {
 		v := reflect.ValueOf(vars[n]).Elem()
 		var buf bytes.Buffer
 		w := &fpWalker{&buf, map[uintptr]int{}}
 		w.str(n)
 		w.walk(v, 0)
-		hf.Write(buf.Bytes())
+		d := sha256.Sum256(buf.Bytes())
+		per[n] = hex.EncodeToString(d[:6])
+		if fpExclude[n] {
+			continue
+		}
+		hf.Write(d[:])
 		t := v.Type().String()
 		if v.Kind() != reflect.Map && t != "sync.Once" {
-			hr.Write(buf.Bytes())
+			hr.Write(d[:])
 		}
 	}
-	return hex.EncodeToString(hf.Sum(nil)[:12]), hex.EncodeToString(hr.Sum(nil)[:12])
+	return hex.EncodeToString(hf.Sum(nil)[:12]), hex.EncodeToString(hr.Sum(nil)[:12]), per
 }
 
 // lazyBits describes which lazily built tables exist (for reports).
@@ -286,9 +297,12 @@ func (r *histRunner) exec(op string) (outcome string) {
 			e[15] = byte(ml + 1)
 			outcome = errString(bip39.CheckMnemonic(strings.Join(r.m.Words(e, ml), " "), lg))
 		case "GE":
-			e := bytes.Repeat([]byte{byte(0x90 + ml)}, 16)
+			// the entropy is a window of a larger caller-owned buffer (spare capacity on
+			// both sides): the whole buffer must be intact afterwards
+			buf := bytes.Repeat([]byte{byte(0x90 + ml)}, 64)
+			e := buf[8:24]
 			e[0] = 0
-			r.keepBytes("entropy passed to "+op, e)
+			r.keepBytes("caller buffer around the entropy passed to "+op, buf)
 			s, err := bip39.NewMnemonicByEntropy(e, lg)
 			r.keepString("mnemonic returned by "+op, s)
 			outcome = s + "|" + errString(err)
@@ -346,13 +360,15 @@ func (r *histRunner) exec(op string) (outcome string) {
 }
 
 type histStep struct {
-	Op      string `json:"op"`
-	Outcome string `json:"outcome"`
-	FP      string `json:"fp"`
-	Rest    string `json:"rest"`
+	Op      string            `json:"op"`
+	Outcome string            `json:"outcome"`
+	FP      string            `json:"fp"`
+	Rest    string            `json:"rest"`
+	Per     map[string]string `json:"per,omitempty"`
 }
 
 type histOut struct {
+	InitialPer    map[string]string `json:"initial_per"`
 	Initial       string     `json:"initial"`
 	InitialRest   string     `json:"initial_rest"`
 	Steps         []histStep `json:"steps"`
@@ -390,7 +406,12 @@ func histMain(args []string) int {
 	}
 	var out histOut
 	out.SourceAtStart, _ = sourceIsDefault()
-	out.Initial, out.InitialRest = fingerprint()
+	for _, n := range strings.Split(os.Getenv("VERIF_FP_EXCLUDE"), ",") {
+		if n != "" {
+			fpExclude[n] = true
+		}
+	}
+	out.Initial, out.InitialRest, out.InitialPer = fingerprint()
 	r := &histRunner{m: m}
 	var ops []string
 	if len(args) > 0 && args[0] != "" {
@@ -406,10 +427,11 @@ func histMain(args []string) int {
 	for i, op := range ops {
 		o := r.exec(op)
 		full, rest := "", ""
+		var per map[string]string
 		if i >= fpFrom {
-			full, rest = fingerprint()
+			full, rest, per = fingerprint()
 		}
-		out.Steps = append(out.Steps, histStep{op, o, full, rest})
+		out.Steps = append(out.Steps, histStep{op, o, full, rest, per})
 	}
 	for _, k := range r.keep {
 		if !bytes.Equal(k.live(), k.copy) {
